@@ -57,7 +57,7 @@ def row(kind, impl, label, t, q, L, letters, p):
 
 def unit(kind, impl, label, t, q, L, setname, lengths=(1, 2, 3, 4)):
     rows = [row(kind, impl, label, t, q, L, LETTERS[setname], p) for p in patterns(L, lengths)]
-    return {'key': '%s/%s/vec%d/%s' % (label, tq(t, q), L, setname), 'group': 'swizzle/%s/%s/vec%d/*(%s)' % (label, tq(t, q), L, setname), 'kind': kind, 'rows': rows}
+    return {'key': '%s/%s/vec%d/%s' % (label, tq(t, q), L, setname), 'group': 'swizzle/%s/%s/vec%d/all-%s' % (label, tq(t, q), L, setname), 'kind': kind, 'rows': rows}
 
 
 def plan(stage, tier):
